@@ -57,6 +57,7 @@ package tree
 //@   ensures result1 == nil ==> rhtHas(t)[nodeHash] && result0.Hash == nodeHash && result0.Left == rhtL(t)[nodeHash] && result0.Right == rhtR(t)[nodeHash]
 //@   ensures result1 == nil ==> nodeHash == H(result0.Left, result0.Right)
 //@   ensures (result1 != nil && isErr(result1, db.ErrNotFound)) ==> !rhtHas(t)[nodeHash]
+//@   ensures plainErr(result1)
 
 //@ func (t *Tree) GetLeaf
 //@   props C08
@@ -126,6 +127,7 @@ package tree
 //@   props C01 C07 C11
 //@   trusted
 //@   requires t != nil
+//@   ensures plainErr(result)
 //@   modifies rootHas(t), rootHash(t), rootBlock(t), rootPos(t), stmtFail
 //@   ensures stmtFail == old(stmtFail) + ite(result == nil, 0, 1)
 //@   ensures result == nil ==> rootHas(t) == upd(old(rootHas(t)), root.Index, true) && rootHash(t) == upd(old(rootHash(t)), root.Index, root.Hash) && rootBlock(t) == upd(old(rootBlock(t)), root.Index, root.BlockNum) && rootPos(t) == upd(old(rootPos(t)), root.Index, root.BlockPosition)
@@ -139,6 +141,7 @@ package tree
 //@   requires typeIs(src, *types.TreeNode)
 //@   modifies rhtHas(caller.t), rhtL(caller.t), rhtR(caller.t), stmtFail
 //@   ensures stmtFail == old(stmtFail) + ite(result == nil || isUniqueErr(result), 0, 1)
+//@   ensures plainErr(result)
 //@   ensures result == nil ==> !old(rhtHas(caller.t))[cast(src, *types.TreeNode).Hash] && rhtHas(caller.t) == upd(old(rhtHas(caller.t)), cast(src, *types.TreeNode).Hash, true) && rhtL(caller.t) == upd(old(rhtL(caller.t)), cast(src, *types.TreeNode).Hash, cast(src, *types.TreeNode).Left) && rhtR(caller.t) == upd(old(rhtR(caller.t)), cast(src, *types.TreeNode).Hash, cast(src, *types.TreeNode).Right)
 //@   ensures (result != nil && isUniqueErr(result)) ==> old(rhtHas(caller.t))[cast(src, *types.TreeNode).Hash]
 //@   ensures result != nil ==> rhtHas(caller.t) == old(rhtHas(caller.t)) && rhtL(caller.t) == old(rhtL(caller.t)) && rhtR(caller.t) == old(rhtR(caller.t))
@@ -150,6 +153,7 @@ package tree
 //@   requires rhtOK(rhtHas(t), rhtL(t), rhtR(t))
 //@   modifies rhtHas(t), rhtL(t), rhtR(t), stmtFail
 //@   ensures[fault-counted] stmtFail == old(stmtFail) + ite(result == nil, 0, 1)
+//@   ensures[storage-error] plainErr(result)
 //@   ensures[rows-only-added] forall(x, Hash, old(rhtHas(t))[x] ==> rhtHas(t)[x] && rhtL(t)[x] == old(rhtL(t))[x] && rhtR(t)[x] == old(rhtR(t))[x])
 //@   ensures[content-addressed] rhtOK(rhtHas(t), rhtL(t), rhtR(t))
 //@   ensures[every-node-stored] result == nil ==> forall(k, 0, len(nodes), rhtHas(t)[nodes[k].Hash] && rhtL(t)[nodes[k].Hash] == nodes[k].Left && rhtR(t)[nodes[k].Hash] == nodes[k].Right)
@@ -166,6 +170,7 @@ package tree
 //@   requires t != nil
 //@   modifies nothing
 //@   ensures (result1 != nil && isErr(result1, db.ErrNotFound)) ==> rootLastIdx(t) == -1
+//@   ensures plainErr(result1)
 //@   ensures result1 == nil ==> rootLastIdx(t) >= 0 && result0.Index == rootLastIdx(t) && rootHas(t)[result0.Index] && result0.Hash == rootHash(t)[result0.Index]
 
 // getRoot() of the deposit contract for size = idx+1, written over the bits of idx (bit h of idx+1 is bitSucc(idx, h))
@@ -185,6 +190,7 @@ package tree
 //@   modifies t.lastIndex, t.lastLeftCache
 //@   ensures[failed-rebuild-leaves-frontier-untouched] result != nil ==> t.lastIndex == old(t.lastIndex) && t.lastLeftCache == old(t.lastLeftCache)
 //@   ensures[rebuilt-index] result == nil ==> t.lastIndex == rootLastIdx(t.Tree)
+//@   ensures[storage-error] plainErr(result)
 //@   ensureslocal[rebuilt-frontier-is-contract-frontier] (result == nil && rootLastIdx(t.Tree) >= 0 && rootLastIdx(t.Tree) < 4294967295 && rootHash(t.Tree)[rootLastIdx(t.Tree)] == solRootI(solBranch(t), rootLastIdx(t.Tree), 32)) ==> forall(k, 0, 32, bitSucc(rootLastIdx(t.Tree), k) ==> t.lastLeftCache[k] == solBranch(t)[k])
 //@   loop 0 unroll 32
 //@   loop 0 invariant index == lastRoot.Index && lastRoot.Index == rootLastIdx(t.Tree) && lastRoot.Hash == rootHash(t.Tree)[rootLastIdx(t.Tree)]
@@ -215,6 +221,7 @@ package tree
 //@   ensures[outcome-recorded] leafCalls == old(leafCalls) + 1 && lastLeafErr == result && lastLeafIdx == leaf.Index
 //@   ensures[rht-content-addressed] rhtOK(rhtHas(t.Tree), rhtL(t.Tree), rhtR(t.Tree))
 //@   ensures[success-means-stored] result == nil ==> stmtFail == old(stmtFail)
+//@   ensures[never-the-syncers-inconsistency-error] plainErr(result)
 // ghost code: on success the mirrored contract performs _addLeaf(leaf.Hash)
 //@   set solCount(t) := ite(result == nil, old(solCount(t)) + 1, old(solCount(t)))
 //@   choose solBranch(t) with ite(result == nil, forall(h, 0, 32, solBranch(t)[h] == solAddAt(old(solBranch(t)), leaf.Index, leaf.Hash, h)), solBranch(t) == old(solBranch(t)))
@@ -253,6 +260,7 @@ package tree
 //@   ensures[outcome-recorded] leafCalls == old(leafCalls) + 1 && lastLeafErr == result && lastLeafIdx == leaf.Index
 //@   ensures[rht-content-addressed] rhtOK(rhtHas(t.Tree), rhtL(t.Tree), rhtR(t.Tree))
 //@   ensures[success-means-stored] result == nil ==> stmtFail == old(stmtFail)
+//@   ensures[never-the-syncers-inconsistency-error] plainErr(result)
 //@   ensures[callback-iff-success] undoCnt(tx) == old(undoCnt(tx)) + ite(result == nil, 1, 0)
 //@   ensures[root-row-iff-success] result != nil ==> rootHas(t.Tree) == old(rootHas(t.Tree)) || rootHas(t.Tree) == upd(old(rootHas(t.Tree)), leaf.Index, true)
 //@   loop 0 unroll 32
